@@ -172,7 +172,7 @@ pub fn cases(ctx: &Ctx) -> Vec<WCase> {
             s.specs = vec![SpecCfg::new(1)];
         }
         s.pred = rr.below(2) as u8;
-        s.link = Link { drop: rr.pick(&[0.0, 0.0, 0.02]), dup: rr.pick(&[0.0, 0.05]), base_ms: rr.pick(&[0u64, 5, 10, 30, 60]), jitter_ms: rr.pick(&[0u64, 3, 10]), outages: vec![], faults: vec![] };
+        s.link = Link { drop: rr.pick(&[0.0, 0.0, 0.02]), dup: rr.pick(&[0.0, 0.05]), base_ms: rr.pick(&[0u64, 5, 10, 30, 60]), jitter_ms: rr.pick(&[0u64, 3, 10]), outages: vec![], faults: vec![], stragglers: vec![] };
         for sp in s.specs.iter_mut() {
             sp.catchup = rr.pick(&[1usize, 2, 5]);
             sp.max_behind = rr.pick(&[2usize, 10, 20]);
